@@ -34,9 +34,9 @@ import (
 // The reqalt-* behaviours never stabilise: their requirements alternate in
 // exactly one dimension of the selector (one per field a comparison could
 // forget).
-var behaviours = []string{"base", "keep", "addx", "dropa", "rename", "error", "fatal", "warn", "normal", "req0", "req1", "req4", "req5", "reqalt", "reqalt-labelvalue", "reqalt-labelkey", "reqalt-kind", "reqalt-apiversion", "reqalt-key"}
+var behaviours = []string{"base", "keep", "addx", "dropa", "rename", "error", "fatal", "fatal-nomsg", "warn", "normal", "req0", "req1", "req4", "req5", "reqalt", "reqalt-labelvalue", "reqalt-labelkey", "reqalt-kind", "reqalt-apiversion", "reqalt-key"}
 
-var quickBehaviours = []string{"base", "keep", "addx", "dropa", "rename", "error", "fatal", "warn", "req1", "req4", "req5", "reqalt", "reqalt-labelvalue", "reqalt-labelkey", "reqalt-kind", "reqalt-apiversion", "reqalt-key"}
+var quickBehaviours = []string{"base", "keep", "addx", "dropa", "rename", "error", "fatal", "fatal-nomsg", "warn", "req1", "req4", "req5", "reqalt", "reqalt-labelvalue", "reqalt-labelkey", "reqalt-kind", "reqalt-apiversion", "reqalt-key"}
 
 // Observed states (prepared by real reconciles, then perturbed).
 var observedStates = []string{"none", "a", "ab", "a-deleted", "a-terminating", "a-foreign", "a-uncontrolled", "a-foreign-same-name"}
@@ -110,6 +110,9 @@ func runner(calls *[]string) xrh.FunctionRunner {
 			return nil, errors.New("function failed")
 		case "fatal":
 			rsp.Results = []*fnv1.Result{{Severity: fnv1.Severity_SEVERITY_FATAL, Message: "fatal"}}
+		case "fatal-nomsg":
+			// A fatal result need not carry a message.
+			rsp.Results = []*fnv1.Result{{Severity: fnv1.Severity_SEVERITY_NORMAL, Message: ""}, {Severity: fnv1.Severity_SEVERITY_FATAL}}
 		case "warn":
 			rsp.Results = []*fnv1.Result{{Severity: fnv1.Severity_SEVERITY_WARNING, Message: "warn"}}
 		case "normal":
@@ -173,7 +176,7 @@ func reference(steps []string) (final map[string]bool, fails bool) {
 				delete(d, "a")
 				d["c"] = true
 			}
-		case "error", "fatal", "req5", "reqalt":
+		case "error", "fatal", "fatal-nomsg", "req5", "reqalt":
 			return nil, true
 		}
 		if strings.HasPrefix(b, "reqalt-") {
@@ -453,6 +456,39 @@ func pipelineBodyVia(r *explore.Run, rep *report.R, scName string, nsteps int, a
 		}
 	}
 
+	// After a reconcile that was hit by a fault, fault-free retries must still
+	// end with exactly the final desired resources: what the faulted reconcile
+	// did not get to delete is deleted later, not forgotten.
+	if faulted && !refFails {
+		rec2 := rec
+		if out.Crashed != nil {
+			rec2 = xrh.NewXRReconciler(xrd, opts)
+		}
+		for i := 0; i < 3; i++ {
+			if o := xrh.Reconcile(rec2, types.NamespacedName{Name: "xr1"}); o.Crashed != nil {
+				panic(explore.HarnessError{Msg: "crash in fault-free reconcile"})
+			}
+		}
+		xrNow := s.Peek(xrh.XRKey("xr1"))
+		left, any := map[string]string{}, map[string]bool{}
+		for _, o := range xrh.ComposedOf(s, xrNow.GetUID(), xrh.ComposedKinds...) {
+			any[xrh.ResourceNameOf(o)] = true // (a terminating one is held by the fixture's finalizer)
+			if o.GetDeletionTimestamp() == nil {
+				left[xrh.ResourceNameOf(o)] = o.GetKind() + "/" + o.GetName()
+			}
+		}
+		for rn, id := range left {
+			if !final[rn] {
+				r.Failf("gc/forgotten-after-fault", "steps %v observed-state %s: after the fault %v and three fault-free reconciles the XR still controls %s (resource %q), which is not in the final desired state %v; spec.resourceRefs %v", steps, state, inj.Taken, id, rn, keys(final), xrh.Refs(xrNow))
+			}
+		}
+		for rn := range final {
+			if !any[rn] {
+				r.Failf("success/missing-after-fault", "steps %v observed-state %s: after the fault %v and three fault-free reconciles desired resource %q does not exist", steps, state, inj.Taken, rn)
+			}
+		}
+	}
+
 	var seq []string
 	for _, w := range log {
 		if w.Effective {
@@ -473,7 +509,7 @@ func pipelineBodyVia(r *explore.Run, rep *report.R, scName string, nsteps int, a
 func failKind(steps []string) string {
 	for _, b := range steps {
 		switch b {
-		case "error", "fatal", "req5", "reqalt":
+		case "error", "fatal", "fatal-nomsg", "req5", "reqalt":
 			return b
 		}
 		if strings.HasPrefix(b, "reqalt-") {
@@ -636,12 +672,12 @@ func TestCheck(t *testing.T) {
 	for k := 1; k <= fk; k++ {
 		k := k
 		name := fmt.Sprintf("pipeline-faults/steps%d", k)
-		fa := []string{"base", "dropa", "rename", "fatal", "req1"}
+		fa := []string{"base", "dropa", "rename", "fatal", "fatal-nomsg", "req1"}
 		scs = append(scs, report.Scenario{Name: name, Bound: 1, Wrap: report.Bubble(t), Body: func(r *explore.Run) { pipelineBody(r, rep, name, k, fa, true) }})
 	}
 	// Functions as gRPC servers behind the real PackagedFunctionRunner (real
 	// sockets: outside the synctest bubble; no oracle looks at the clock).
-	ga := []string{"base", "dropa", "error", "fatal", "req5", "keep"}
+	ga := []string{"base", "dropa", "error", "fatal", "fatal-nomsg", "req5", "keep"}
 	for k := 1; k <= 2; k++ {
 		k := k
 		name := fmt.Sprintf("grpc-pipeline/steps%d", k)
